@@ -219,3 +219,59 @@ Ltac stk_small :=
 
 Ltac stk_run :=
   repeat (progress (wrap32; zfold; cbv zeta; autorewrite with stk; stk_beta; cbn [go_for negb]; stk_model)).
+
+(** ** handlers *)
+Lemma bind_pair_eta {A B} (m : M (A * B)) : bind m (fun '(a, b) => Val (a, b)) = m.
+Proof. destruct m as [[a b]| |]; reflexivity. Qed.
+
+Lemma h_view_st_view s m :
+  h_view s m = match st_view m with
+               | Val (Some d') => Some (Interp.OOk (Interp.set_ds s d'))
+               | Val None => Some Interp.OErr
+               | Panic => Some Interp.OPanic
+               | NoFuel => None
+               end.
+Proof. destruct m as [[g [|]]| |]; reflexivity. Qed.
+
+Lemma to_int32_in31 z : in31 (sn_int32 z).
+Proof. unfold in31, sn_int32, ScriptNum.to_int32, ScriptNum.to_int64, ScriptNum.clamp, ScriptNum.min_i32, ScriptNum.max_i32, ScriptNum.min_i64, ScriptNum.max_i64.
+  repeat match goal with |- context [if ?c then _ else _] => destruct c eqn:? end; lia. Qed.
+
+(** every item shorter than 2^63 bytes (Go: any slice is): what proofs/GenFuncs_asBool.v needs *)
+Definition items_ok (d : list bytes) : Prop := Forall (fun x => (lenN x < 9223372036854775808)%N) d.
+
+Ltac h_items :=
+  repeat match goal with
+  | H : items_ok (_ :: _) |- _ => unfold items_ok in H
+  | H : Forall _ (_ :: _) |- _ => let H1 := fresh "Hit" in let H2 := fresh "Hits" in pose proof (Forall_inv H) as H1; pose proof (Forall_inv_tail H) as H2; clear H; cbv beta in H1
+  end.
+
+(** the model's side: open the helper the branch is written with *)
+Ltac h_model :=
+  unfold Interp.binary_num, Interp.unary_num, Interp.verify_top, Interp.push_num, Interp.push_bool, Interp.push,
+         Interp.set_ds, Interp.set_als;
+  cbn [Interp.ds Interp.als Interp.cond Interp.els Interp.nops Interp.last_sep Interp.early Interp.cur].
+
+(** numbers popped by the handler: the same case analysis on both sides *)
+Ltac h_nums :=
+  repeat (rewrite ?sn_make_pop_num;
+          match goal with
+          | |- context [Interp.pop_num ?c ?x] => let E := fresh "En" in destruct (Interp.pop_num c x) eqn:E
+          end; stk_run).
+
+Ltac h_done :=
+  cbn [h_view h_view2]; h_model; rewrite ?rev_involutive;
+  first
+  [ reflexivity
+  | unfold Interp.b2z, sn_of_int64, sn_set, sn_add, sn_sub, sn_mul, sn_incr, sn_decr, sn_neg, sn_abs, sn_bytes in *;
+    repeat match goal with |- context [if ?c then _ else _] => let E := fresh "E" in destruct c eqn:E end;
+    first [ reflexivity | exfalso; lia
+          | repeat (lazymatch goal with |- @eq Z _ _ => fail | |- @eq bool _ _ => fail | _ => progress f_equal end); lia ] ].
+
+(** closed applications of [as_bool] (the boolean a handler has just pushed) *)
+Ltac h_cl :=
+  repeat match goal with
+  | |- context [ScriptNum.as_bool ?e] =>
+      let v := eval vm_compute in (ScriptNum.as_bool e) in
+      lazymatch v with true => idtac | false => idtac end; change (ScriptNum.as_bool e) with v
+  end; cbn [negb].
